@@ -8,9 +8,9 @@ LB = "internal/loadbalancer"
 RL = "internal/ratelimiter"
 
 ENGINES = [
-    dict(name="S", path="engine/shim/vrt", serves_properties=["C02", "C04", "C07", "C08", "C09"],
+    dict(name="S", path="engine/shim/vrt", serves_properties=["C02", "C04", "C05", "C06", "C07", "C08", "C09"],
          kind_free_text="controlled cooperative scheduler + stateless replay DFS with preemption bounding over the real Helios code (sync/atomic/time/go/select rewritten onto shims by vgen)"),
-    dict(name="H", path="engine/shim/vh/hrun.go", serves_properties=["C02", "C04", "C07", "C08", "C09"],
+    dict(name="H", path="engine/shim/vh/hrun.go", serves_properties=["C02", "C04", "C05", "C06", "C07", "C08", "C09"],
          kind_free_text="explicit-state breadth-first search over event histories of the real objects under a virtual clock, reflective state fingerprint for deduplication, reference-model / monitor oracle on every transition"),
 ]
 
@@ -75,6 +75,30 @@ CHECKS = {
         jobs=[
             dict(name="c04s", part="S", pkg=LB, run="TestVerifC04S", mode="instr", shards=dict(quick=6, thorough=15)),
             dict(name="c04h", part="H", pkg=LB, run="TestVerifC04H", mode="instr", shards=dict(quick=16, thorough=16), timeout=dict(quick=600, thorough=3000)),
+        ],
+        assumptions=[],
+    ),
+    "C05": dict(
+        level="model_checking",
+        engine="S+H",
+        technique="exhaustive enumeration of pools, weight vectors, ejected subsets, offsets and in-flight vectors through the real ServeHTTP + explicit-state BFS over membership/health histories with a deviation probe + exhaustive preemption-bounded schedule exploration of concurrent pickers",
+        text="round_robin: pools of 1..6 (thorough 1..8), every ejected subset and every warm-up offset: every window of |eligible| consecutive requests is a permutation of the eligible backends; 2-4 concurrent pickers through findHealthyBackend under all interleavings up to the preemption bound give exactly k per backend. weighted_round_robin: every weight vector in {0..6}^n (n<=3, thorough n<=4) from a fresh pool gives exactly w_i in every window of sum(w) within three cycles (weights below 1 as 1); BFS over {pick, eject, recover, remove, add} histories with a probe of 3*W_eligible requests checks the stated deviation bound at every prefix. least_connections: every in-flight vector in {0,1,2}^n built from really overlapping (held) requests x every ejected subset: the next request goes to a minimal eligible gauge and gauges equal in-flight counts.",
+        note="All picks go through ServeHTTP (or findHealthyBackend for the concurrent counting claim) with stub transports; 'recover' is modelled by an ejection whose window is already over; larger weight vectors than the enumerated ones are not covered.",
+        jobs=[
+            dict(name="c05h", part="H", pkg=LB, run="TestVerifC05", mode="instr", shards=dict(quick=16, thorough=16), timeout=dict(quick=600, thorough=3000)),
+            dict(name="c05s", part="S", pkg=LB, run="TestVerifC05S", mode="instr", shards=dict(quick=3, thorough=7), timeout=dict(quick=600, thorough=3000)),
+        ],
+        assumptions=[],
+    ),
+    "C06": dict(
+        level="model_checking",
+        engine="H",
+        technique="exhaustive enumeration of the jump-hash key space (all 2^32 keys x pool sizes in the thorough tier) on the real function + exhaustive enumeration of pools, eligible subsets, address spellings and perturbations through the real ServeHTTP + append histories",
+        text="The real jumpHash is called for every key of the enumerated space (quick: one seed-selected 2^26 block x n<=8; thorough: all 2^32 keys x n<=16, which is the whole input space since the strategy feeds it 32-bit FNV values) and checked for range and for moving only to the new bucket when the pool grows. Through ServeHTTP: pools 1..6 (8) x every ejected subset (n<=5) x 11 client addresses x 7 identity-preserving spellings (RemoteAddr ports, X-Forwarded-For single/list/optional whitespace, X-Real-IP) x path/method/header perturbations with other clients interleaved: same backend, always listed and eligible; 9 junk strings in all three places: a valid eligible backend; append history 1->8 re-asking 1024 (4096) enumerated clients after each append: keep or move to the appended backend; two concurrent clients under all interleavings with one preemption.",
+        note="Which spellings denote the same client address follows utils.GetClientIP's documented attribution (first X-Forwarded-For element trimmed, then X-Real-IP, then the peer host).",
+        jobs=[
+            dict(name="c06jump", part="Jump", pkg=LB, run="TestVerifC06Jump", mode="instr", shards=dict(quick=16, thorough=16), timeout=dict(quick=600, thorough=3000)),
+            dict(name="c06h", part="H", pkg=LB, run="TestVerifC06", mode="instr", shards=dict(quick=5, thorough=5), timeout=dict(quick=600, thorough=3000)),
         ],
         assumptions=[],
     ),
